@@ -21,6 +21,12 @@ RoundTripReasons(e) == (IF e.marshalOK /\ e.unmarshalOK THEN {} ELSE {"not-encod
                        (IF e.unmarshalOK /\ ~e.sameDetails THEN {"details-changed"} ELSE {}) \cup
                        (IF e.unmarshalOK /\ ~e.sameFlags THEN {"flags-changed"} ELSE {}) \cup
                        (IF e.unmarshalOK /\ ~e.stable THEN {"fid-reencoding-differs"} ELSE {})
+\* what the tool prints for an object it could read is the library's result set in JSON: it decodes, and to the same content
+CliOutReasons(e) == (IF e.printed /\ e.exit = 0 THEN {} ELSE {"tool-output-is-not-a-result-set"}) \cup
+                    (IF e.printed /\ ~e.sameKeys THEN {"lints-lost-or-added"} ELSE {}) \cup
+                    (IF e.printed /\ ~e.sameStatus THEN {"status-changed"} ELSE {}) \cup
+                    (IF e.printed /\ ~e.sameDetails THEN {"details-changed"} ELSE {}) \cup
+                    (IF e.printed /\ ~e.sameFlags THEN {"flags-changed"} ELSE {})
 ListingReasons(e) == (IF e.lines = e.registered THEN {} ELSE {"listing-line-count"}) \cup
                      (IF e.allDecode THEN {} ELSE {"listing-line-not-json"}) \cup
                      (IF e.allMatch THEN {} ELSE {"listing-fields-differ"}) \cup
